@@ -61,6 +61,16 @@ def gen(W):
         conns.append({"reqs": reqs, "start": W.choice([0.0, 0.0002, 0.003]),
                       "cut": W.draw(200), "seg_delay": W.choice([0.0, 0.001]),
                       "reader": W.weighted([5, 2])})
+        # a client that waits for the go-ahead: the second request asks for 100-continue and its body is held back
+        # until the interim response arrives (or 20 ms pass) - the interim then often has to be sent by the worker
+        # that finishes the first request
+        conns[-1]["hold_body"] = W.chance(0.3)
+        if conns[-1]["hold_body"] and len(reqs) >= 2:
+            reqs[1]["kind"] = reqs[1]["kind"] if reqs[1]["kind"] in (1, 2) else 1
+            reqs[1]["expect"] = True
+            if reqs[0]["kind"] == 3:
+                reqs[0]["kind"] = 0
+            reqs[0]["sleep"] = reqs[0]["sleep"] or 0.0003
     sc["conns"] = conns
     sc["victim"] = W.draw(nconn)
     sc["sched"], sc["trace"] = common.draw_sched(W, walk_p=0.6)
@@ -81,6 +91,7 @@ def one_run(sc, placements, sub_id):
     scripts = {}
     expected = {}
     streams = {}
+    hold_at = {}
     for cid, c in enumerate(sc["conns"]):
         exp = []
         stream = b""
@@ -106,7 +117,10 @@ def one_run(sc, placements, sub_id):
                 if q["expect"]:
                     hdrs.append(("Expect", "100-continue"))
             scripts[path] = script
-            stream += build_request(method, path, "1.1", hdrs, rb, chunked=(q["kind"] == 2))
+            raw = build_request(method, path, "1.1", hdrs, rb, chunked=(q["kind"] == 2))
+            if r == 1 and c.get("hold_body") and q["kind"] in (1, 2) and q["expect"]:
+                hold_at[cid] = len(stream) + raw.index(b"\r\n\r\n") + 4
+            stream += raw
             exp.append({"path": path, "method": method, "body": body, "reqbody": rb or b"", "status": 200})
         expected[cid] = exp
         streams[cid] = stream
@@ -136,7 +150,10 @@ def one_run(sc, placements, sub_id):
         steps = []
         if c["reader"] == 1:
             steps.append(("mode", "slow", max(16, sc["sndbuf_cap"] // 2), 0.0004))
-        if 0 < cut < len(stream):
+        if cid in hold_at and hold_at[cid] < len(stream):
+            h = hold_at[cid]
+            steps += [("send", stream[:h]), ("wait", ("contains", b"100 Continue"), 0.02), ("send", stream[h:])]
+        elif 0 < cut < len(stream):
             steps += [("send", stream[:cut])]
             if c["seg_delay"]:
                 steps.append(("sleep", c["seg_delay"]))
